@@ -710,6 +710,8 @@ func exec(op string) (res string) {
 		return "bad-op"
 	}
 	switch w[0] {
+	case "hs", "hsm":
+		return execHs(w)
 	case "enc":
 		h := parseReq(&toks{w: w, i: 1})
 		frame, outcome := buildListedOrder(h, nil)
@@ -1319,6 +1321,15 @@ func main() {
 	}
 	for i := 0; i < nsess; i++ {
 		g.sessionScenario(i)
+	}
+	// 7. handshake tier: one real connection against a scripted peer and a scripted multi-round
+	// authenticator; the requests that are due follow from the peer's answers
+	nhs := 500
+	if tier == "thorough" {
+		nhs = 12000
+	}
+	for i := 0; i < nhs; i++ {
+		g.hsScenarioCase(i)
 	}
 	out.Close(map[string]interface{}{"tier": tier})
 	if os.Getenv("VERIF_C03_DIST") != "" {
